@@ -39,6 +39,17 @@ Definition active_trail_nodes_obs (g : digraph) (lat : list node) (start : node)
 Definition is_dconnected (g : digraph) (x y : node) (Z : list node) : bool :=
   memn y (active_trail_nodes g x Z).
 
+(* get_independencies(include_latents=incl): for a start node and an observed tuple drawn from
+   [indep_rest], the asserted set is  rest - observed - active_trail_nodes(start, observed, incl)[start];
+   an assertion (start _|_ dsep_vars | observed) is added when it is non-empty *)
+Definition indep_rest (g : digraph) (lat : list node) (incl : bool) (start : node) : list node :=
+  filter (fun v => negb (Nat.eqb v start) && (incl || negb (memn v lat))) (nodes g).
+Definition dsep_vars (g : digraph) (lat : list node) (incl : bool) (start : node) (observed : list node)
+  : list node :=
+  let act := if incl then active_trail_nodes g start observed
+             else active_trail_nodes_obs g lat start observed in
+  filter (fun v => negb (memn v observed) && negb (memn v act)) (indep_rest g lat incl start).
+
 (* get_ancestral_graph(nodes): induced subgraph on the ancestors-or-self *)
 Definition induced (g : digraph) (keep : list node) : digraph :=
   {| nodes := filter (fun n => memn n keep) (nodes g);
@@ -63,35 +74,50 @@ Definition nondesc_minus_parents (g : digraph) (v : node) : list node :=
   let d := desc_of g [v] in
   filter (fun x => negb (memn x d) && negb (memn x (parents g v))) (nodes g).
 
-(* minimal_dseparator(start, end) with latent set [lat]; [order] is the iteration order of the
-   Python set [separator] in the final removal loop (any permutation of it).
+(* minimal_dseparator(start, end) with latent set [lat].  Python iterates over sets in two loops; the
+   iteration orders are explicit parameters: [lorder i] for pass i of the latent-replacement loop,
+   [order] for the final removal loop (see [iter_order]).
    Result: None = ValueError (adjacent), Some None = returned None, Some (Some s) = separator. *)
 Definition adjacent (g : digraph) (u v : node) : bool := has_edge g u v || has_edge g v u.
 
-Fixpoint replace_latents (fuel : nat) (g : digraph) (lat sep : list node) : list node :=
+Definition remove1 (x : node) (l : list node) : list node := filter (fun y => negb (Nat.eqb y x)) l.
+
+(* iteration order of the Python set [s]: every member exactly once; members listed in the priority
+   list [order] come first in that order, the others afterwards *)
+Definition iter_order (order s : list node) : list node :=
+  filter (fun u => memn u s) (dedup order) ++ filter (fun u => negb (memn u order)) s.
+
+(* one pass of   separator_copy = separator.copy()
+                 for u in separator:
+                     if u in self.latents: separator_copy.remove(u); separator_copy.update(predecessors(u))
+   (a latent removed early in the pass can be re-added as the parent of a later latent: the outcome of
+   one pass depends on the iteration order [ord]) *)
+Definition lat_step (g : digraph) (lat ord sep : list node) : list node :=
+  fold_left (fun copy u => if memn u lat then dedup (remove1 u copy ++ parents g u) else copy)
+            (iter_order ord sep) sep.
+
+(* while len(separator & latents) != 0: <one pass>.  [lorder i] is the iteration order of pass i. *)
+Fixpoint replace_latents (fuel : nat) (g : digraph) (lat : list node) (lorder : nat -> list node)
+  (i : nat) (sep : list node) : list node :=
   match fuel with
   | 0 => sep
   | S f =>
       if existsb (fun u => memn u lat) sep
-      then replace_latents f g lat
-             (dedup (flat_map (fun u => if memn u lat then parents g u else [u]) sep))
+      then replace_latents f g lat lorder (S i) (lat_step g lat (lorder i) sep)
       else sep
   end.
 
-Definition remove1 (x : node) (l : list node) : list node := filter (fun y => negb (Nat.eqb y x)) l.
-
-Definition minimal_dseparator (g : digraph) (lat : list node) (x y : node) (order : list node)
+Definition minimal_dseparator (g : digraph) (lat : list node) (x y : node)
+  (lorder : nat -> list node) (order : list node)
   : option (option (list node)) :=
   if adjacent g x y then None
   else
     let ag := ancestral_graph g [x; y] in
-    let sep0 := replace_latents (S (length (nodes g))) g lat (dedup (parents g x ++ parents g y)) in
+    let sep0 := replace_latents (S (length (nodes g))) g lat lorder 0 (dedup (parents g x ++ parents g y)) in
     let sep := remove1 x (remove1 y sep0) in
     if is_dconnected ag x y sep then Some None
     else
-      (* iterate over [order] restricted to members of sep, plus any member order misses *)
-      let ord := filter (fun u => memn u sep) order ++ filter (fun u => negb (memn u order)) sep in
       Some (Some (fold_left
               (fun (ms : list node) (u : node) =>
                  if is_dconnected ag x y (remove1 u ms) then ms else remove1 u ms)
-              ord sep)).
+              (iter_order order sep) sep)).
